@@ -21,7 +21,7 @@ def populate(shape, variant):
         n["id"] = f"o{i}"
         n["content"] = f"c{i}"
         n["tail"] = f"t{i}"
-        n["attrs"] = [["k", f"v{i}"]]
+        n["attrs"] = [["k", f"v{i}"], ["id", f"xml-id-{i}"]]
         n["extras"] = [["p:e", f"w{i}"]]
         n["prefix"] = "p"
     g["ns"] = [["p", "urn:u1"]]
